@@ -545,6 +545,10 @@ def _canon(t):
         if op in ("And", "Or"):
             args = sorted({repr(_canon(a)): _canon(a) for a in t[2:]}.items())
             return ("app", op) + tuple(v for _, v in args)
+        if op in ("==", "!=", "Xor") and len(t) == 4:
+            # symmetric operators (the arithmetic ==/!= were turned into canonical atoms above)
+            a_, b_ = sorted([_canon(t[2]), _canon(t[3])], key=repr)
+            return ("app", op, a_, b_)
         return ("app", op) + tuple(_canon(a) for a in t[2:])
     if k == "each":
         return ("each", tuple(_canon(l) for l in t[1]), tuple(sorted((_canon(g) for g in t[2]), key=repr)), _canon(t[3]))
